@@ -19,6 +19,15 @@ running configuration `c` alone with seed `s` are the pair `(c, s)` (the harness
   reduce <spec|asis> <npts> <usemean> <bounds|none> <qlo,qhi|none> <members>    members: rows of rationals joined by `;`
    -> ok <centre,low,high,var>;...   per time point, with sqrt := id (so low/high of the mean branch are mean ∓ k·variance)
   summarize <spec|asis> <mean|median|all> <qs> <vals>
+  grun <members> <reseed> <dorun> <private|chunk:c> <sched> <w0>
+      the tasks of a list of members (ind = position) run by workers whose process-global generators start in the states
+      `host w0[i]` (comma list of naturals, worker i; others `host 0`); runs READ that state (Model: singleRunG / execParG)
+   -> ok <cfg:seed:eff:G>,...   G = S<seed> (steps started from the generators freshly seeded with <seed>) | H (from whatever the
+      hosting process held) | - (not run)         or E:...
+  gserial <members> <reseed> <dorun> <g0>         the serial loop in one process starting from `host g0`
+  summary <default|mean|median|last> <key> <series>                 -> ok <sim.summarize(how)[key]>
+  rsummary <usemean> <bounds|none> <qlo,qhi|none> <key> <members>    -> ok <msim.summary[key] after reduce>
+  msummarize <spec|asis> <mean|median|all> <qs> <how> <key> <members>   (members: rows of the members' series) -> as summarize
 -/
 
 abbrev K := Nat
@@ -155,6 +164,83 @@ def doSummarize (ws : List String) : Option String :=
       | .ok (.all l) => some s!"ok all={showList showRat l}"
   | _ => none
 
+/-! host-state model -/
+abbrev RG := Nat × Int × GState
+
+def envG : GEnv K RG := ⟨fun c s g => (c, s, g), fun _ s _ => .host (1000 + s.natAbs), fun _ => .host 999⟩
+
+def showG : GState → String
+  | .seeded s => s!"S{s}"
+  | .host _ => "H"
+
+def showSimG (s : Sim K RG) : String :=
+  match s.results with
+  | some r => s!"{s.cfg}:{s.seed}:{r.2.1}:{showG r.2.2}"
+  | none => s!"{s.cfg}:{s.seed}:-:-"
+
+def parseMemberG (s : String) : Option (Sim K RG) :=
+  match s.splitOn ":" with
+  | [c, sd, ini, ran] => do
+      let c ← c.toNat?
+      let sd ← sd.toInt?
+      let ini ← parseOptInt? ini
+      let ran ← parseBool? ran
+      some { cfg := c, seed := sd, initSeed := ini, results := if ran then some (c, ini.getD sd, .host 0) else none }
+  | _ => none
+
+def tasksG (ms : List (Sim K RG)) (reseed doRun : Bool) : List (Task K RG) :=
+  (List.range ms.length).zip ms |>.map fun (i, s) => { sim := s, ind := i, reseed := reseed, seedArg := none, cfgArg := none, doRun := doRun }
+
+def showOutG (r : Except Err (List (Sim K RG))) : String :=
+  match r with
+  | .error e => showErr e
+  | .ok l => "ok " ++ (if l.isEmpty then "-" else ",".intercalate (l.map showSimG))
+
+def doGRun (ws : List String) : Option String :=
+  match ws with
+  | [members, reseed, dorun, share, sched, w0] => do
+      let ms ← (if members = "-" then some [] else (members.splitOn ",").mapM parseMemberG)
+      let reseed ← parseBool? reseed
+      let dorun ← parseBool? dorun
+      let share : Nat → Nat ← (if share = "private" then some sharePrivate else
+        match share.splitOn ":" with
+        | ["chunk", c] => do some (shareChunk (← c.toNat?))
+        | _ => none)
+      let sched ← parseSched sched
+      let w0 ← parseNatList? w0
+      some (showOutG (execParG envG (tasksG ms reseed dorun) share sched (fun w => .host (w0.getD w 0))))
+  | _ => none
+
+def doGSerial (ws : List String) : Option String :=
+  match ws with
+  | [members, reseed, dorun, g0] => do
+      let ms ← (if members = "-" then some [] else (members.splitOn ",").mapM parseMemberG)
+      let reseed ← parseBool? reseed
+      let dorun ← parseBool? dorun
+      let g0 ← g0.toNat?
+      some (showOutG ((execSerialG envG (tasksG ms reseed dorun) (.host g0)).map Prod.fst))
+  | _ => none
+
+def parseHow (s : String) : Option How :=
+  if s = "default" then some .default else if s = "mean" then some (.all .mean)
+  else if s = "median" then some (.all .median) else if s = "last" then some (.all .last) else none
+
+def doMSummarize (ws : List String) : Option String :=
+  match ws with
+  | [v, m, qs, how, key, rows] => do
+      let v ← parseVariant v
+      let m : SumMethod ← (if m = "mean" then some .mean else if m = "median" then some .median
+                            else if m = "all" then some .all else none)
+      let qs ← parseRatList? qs
+      let how ← parseHow how
+      let members ← parseRows rows
+      match msimSummarize v m qs how key members with
+      | .error e => some (showErr e)
+      | .ok (.meanStd mu var sem2) => some s!"ok mean={showRat mu} var={showRat var} sem2={showRat sem2}"
+      | .ok (.quantiles l) => some s!"ok q={showList showRat l}"
+      | .ok (.all l) => some s!"ok all={showList showRat l}"
+  | _ => none
+
 def stepLine (u : Unit) (line : String) : Unit × String :=
   let r := match words line with
     | "run" :: ws => doRun ws
@@ -165,6 +251,19 @@ def stepLine (u : Unit) (line : String) : Unit × String :=
         let q ← parseOptRatPair? q
         some s!"ok {showRat (Gen.boundsArg b)} {showRat (Gen.quantilesArg q).1} {showRat (Gen.quantilesArg q).2}"
     | "summarize" :: ws => doSummarize ws
+    | "grun" :: ws => doGRun ws
+    | "gserial" :: ws => doGSerial ws
+    | "msummarize" :: ws => doMSummarize ws
+    | ["summary", how, key, series] => do
+        let how ← parseHow how
+        let l ← parseRatList? series
+        some s!"ok {showRat (simSummary how key l)}"
+    | ["rsummary", um, bounds, quant, key, rows] => do
+        let um ← parseBool? um
+        let bounds ← parseOptRat? bounds
+        let quant ← parseOptRatPair? quant
+        let members ← parseRows rows
+        some s!"ok {showRat (reducedSummary id um (Gen.boundsArg bounds) (Gen.quantilesArg quant).1 (Gen.quantilesArg quant).2 key members)}"
     | _ => none
   (u, r.getD "bad-op")
 
